@@ -2,6 +2,7 @@ package valid
 
 import (
 	"encoding/json"
+	"errors"
 	"fmt"
 	"net"
 	"os"
@@ -405,7 +406,7 @@ func Year(errBuf *strings.Builder, validName, objName, fieldName string, tv refl
 		errBuf.WriteString(err.Error())
 		return
 	}
-	_, err := time.Parse(GetTimeFmt(YearFmt), tv.String())
+	err := parseFixedTime(GetTimeFmt(YearFmt), tv.String())
 	if err == nil {
 		return
 	}
@@ -430,7 +431,7 @@ func Year2Month(errBuf *strings.Builder, validName, objName, fieldName string, t
 	if val != "" {
 		defaultDateSplit = strings.Trim(val, "'")
 	}
-	_, err := time.Parse(GetTimeFmt(YearFmt|MonthFmt, defaultDateSplit), tv.String())
+	err := parseFixedTime(GetTimeFmt(YearFmt|MonthFmt, defaultDateSplit), tv.String())
 	if err == nil {
 		return
 	}
@@ -454,7 +455,7 @@ func Date(errBuf *strings.Builder, validName, objName, fieldName string, tv refl
 	if val != "" {
 		defaultDateSplit = strings.Trim(val, "'")
 	}
-	_, err := time.Parse(GetTimeFmt(DateFmt, defaultDateSplit), tv.String())
+	err := parseFixedTime(GetTimeFmt(DateFmt, defaultDateSplit), tv.String())
 	if err == nil {
 		return
 	}
@@ -480,7 +481,7 @@ func Datetime(errBuf *strings.Builder, validName, objName, fieldName string, tv 
 			defaultSplit[i] = split
 		}
 	}
-	_, err := time.Parse(GetTimeFmt(DateTimeFmt, defaultSplit...), tv.String())
+	err := parseFixedTime(GetTimeFmt(DateTimeFmt, defaultSplit...), tv.String())
 	if err == nil {
 		return
 	}
@@ -493,6 +494,20 @@ func Datetime(errBuf *strings.Builder, validName, objName, fieldName string, tv 
 		objName, fieldName, tv.String(), ExplainEn,
 		fmt.Sprintf("it is not datetime, eg: 1996%s09%s28%s23%s00%s00", defaultSplit[0], defaultSplit[0], defaultSplit[1], defaultSplit[2], defaultSplit[2]),
 	))
+}
+
+// parseFixedTime 按定长 layout 严格解析时间
+// 注: time.Parse 会容忍多个连续空格, 1 位的小时以及秒后面的小数, 这些都不符合 xxxx-xx-xx xx:xx:xx 的格式,
+// 所以解析成功后再按 layout 格式化回去比较下
+func parseFixedTime(layout, value string) error {
+	t, err := time.Parse(layout, value)
+	if err != nil {
+		return err
+	}
+	if t.Format(layout) != value {
+		return errors.New("time format is not ok")
+	}
+	return nil
 }
 
 // Re 正则表达式
